@@ -11,6 +11,36 @@ TEXTS = {
   design_ref="DESIGN.md §7 C20"),
 }
 
+
+def _t(technique, level_text, level_note, ref):
+    return dict(technique=technique, level_text=level_text, level_note=level_note, design_ref=ref)
+
+EXPL_NOTE = ("Exploration by generated-input search: holds on everything generated (counts and class histogram in the evidence file); "
+             "never a proof of absence. ")
+TRUST = "Trusted: Go toolchain, rapid, mp4ff as independent parser, encoding/xml, the harness's reference model (internal/refmodel, internal/vod)."
+
+TEXTS.update({
+ "C01": _t("rapid property test; differential against an integer reference model + VoD files; metamorphic (addressing modes, n/n+1)",
+           EXPL_NOTE + "Each case parses the served segment independently and compares every sample (payload located via trun.data_offset), "
+           "tfdt per fragment, numbers, sidx, TTML timestamps and the three addressing modes, over bundled and generated layouts, many wraps and 64-bit tfdt.",
+           TRUST + " Instants up to year 2100; segment numbers below 2^32 (mfhd is 32 bit).", "DESIGN.md §7 C01"),
+ "C02": _t("rapid property test; MPD parsed independently, declared segments fetched at the same instant; reference model for the live edge",
+           EXPL_NOTE + "The MPD is expanded to the segments it declares (explicit timeline or implicit template) and each is requested at the same nowMS; "
+           "live edge and window start are judged by the reference model on both sides of every breakpoint.",
+           TRUST + " Instants within 1 ms of an availability instant that is not computed exactly accept both neighbours; one open known finding (KF-C02-float-boundary).",
+           "DESIGN.md §7 C02"),
+ "C03": _t("rapid property test; independent audio frame model (ceil to frame boundary, looped source, padding) with payload comparison",
+           EXPL_NOTE + "Generated layouts vary codec frame size, audio grid and audio-vs-video loop length; every served frame is compared with the VoD frame the model names.",
+           TRUST, "DESIGN.md §7 C03"),
+ "C04": _t("rapid property test; sorted instant sweeps around A_n, A_n+tsbd, +10 s; integer reference model; monotonicity",
+           EXPL_NOTE + "Sweeps of 10-30 instants with +-1/2 ms offsets around each breakpoint for video/audio/text/image and all addressing modes.",
+           TRUST + " 'Gone' is only required one hour after A_n+tsbd (the exact 10 s margin is not asserted).", "DESIGN.md §7 C04"),
+ "C05": _t("rapid property test; relational invariants over ordered sets of MPDs (monotonicity, publishTime <-> content)",
+           EXPL_NOTE + "Ordered sets of instants across breakpoints, wraps, period boundaries and the stop time; documents compared byte-wise.",
+           TRUST + " Two open known findings (window-start removal and period start do not move publishTime) are excused only with their exact symptom.",
+           "DESIGN.md §7 C05"),
+})
+
 _claimed = set(TEXTS)
 NOT_APPLICABLE = [{"property_id": p, "reason": "check not built yet in this session (planned, see DESIGN.md §7); not a limitation of the technique"}
                   for p in ALL if p not in _claimed]
